@@ -172,31 +172,32 @@ def check_ibi(rep):
         vname, vsym = carried[0]
 
         def orc(lf):
-            for atom, nm in ((aim, "A"), (cur, "C")):
-                p = threshold(lf, atom, thr)
-                if p is not None:
-                    return (nm, p)
             if isinstance(lf, tuple) and lf and lf[0] == "match" and lf[1] == pfl and "u" in str(lf[2]):
                 return ("U", True)
             return None
         want_upd = S("$pref") * sp.log(cur / aim)
         bad = None
-        for a_, c_, u_ in itertools.product((True, False), repeat=3):
-            atoms = {"A": a_, "C": c_, "U": u_}
-            valid = a_ and c_ and not u_
-            dp = sc.final("dpot", isym, lid, atoms, orc)
-            fl = sc.final("flag", isym, lid, atoms, orc)
-            nv = sc.resolve(l["step"].get(vname), atoms, orc)
+        # the rdf values are touched through comparisons only: representatives on both sides of the threshold, including pairs whose
+        # product / sum is on the other side of it than the factors
+        reps = [(Q(1), Q(1)), (Q(1, 10 ** 11), Q(1)), (Q(1), Q(1, 10 ** 11)), (Q(1, 10 ** 11), Q(1, 10 ** 11)), (Q(3, 10 ** 7), Q(2, 10 ** 7)),
+                (Q(2, 10 ** 11), Q(8)), (Q(8), Q(2, 10 ** 11)), (thr, Q(1)), (Q(1), thr), (Q(0), Q(1)), (Q(1), Q(0))]
+        for (va, vc), u_ in itertools.product(reps, (True, False)):
+            atoms = {"U": u_}
+            sub = {aim: va, cur: vc}
+            valid = va > thr and vc > thr and not u_
+            dp = sc.final("dpot", isym, lid, atoms, orc, sub)
+            fl = sc.final("flag", isym, lid, atoms, orc, sub)
+            nv = sc.resolve(l["step"].get(vname), atoms, orc, sub)
             if dp is None or fl is None or nv is None or ites(dp) or ites(nv):
-                raise AnalysisBroken("update_ibi_pot.pl sweep at line %s: update, flag or carried value undecided for %s" % (l["line"], atoms))
+                raise AnalysisBroken("update_ibi_pot.pl sweep at line %s: update, flag or carried value undecided for rdf_aim=%s, rdf_cur=%s, %s" % (l["line"], va, vc, atoms))
             nv = nv.xreplace({el("dpot", isym): dp}) if hasattr(nv, "xreplace") else nv
             if valid:
                 ok = leq(dp, want_upd) and str(fl) == '"i"' and leq(nv, want_upd)
             else:
                 ok = dp == vsym and str(fl) == '"o"' and nv == vsym
             if not ok and bad is None:
-                bad = "for rdf_aim%s1e-10, rdf_cur%s1e-10, potential flag %s: dU = %s, flag = %s, carried value -> %s" % (
-                    ">" if a_ else "<=", ">" if c_ else "<=", "u" if u_ else "not u", dp, fl, nv)
+                bad = "for rdf_aim = %s, rdf_cur = %s, potential flag %s: dU = %s, flag = %s, carried value -> %s" % (
+                    float(va), float(vc), "u" if u_ else "not u", dp, fl, nv)
         rep.check(bad is None, "R19.1", "ibi|update#%d" % k, "dU = kBT*ln(g_cur/g_tgt) (flag i) where both rdfs > 1e-10 and the potential is defined; else the last valid value, flag o",
                   "update_ibi_pot.pl sweep at line %s: %s; required pref*log(rdf_cur/rdf_aim)/i for valid points and the continued last valid value/o elsewhere" % (l["line"], bad),
                   "%s:%s" % (sc.loc, l["line"]), sample=True)
